@@ -153,7 +153,7 @@ def _unq(s):
     return s
 
 
-def entry_equiv(where, a, b, types=True, defaults=True, docs=True, typ_may_be_inferred=False):
+def entry_equiv(where, a, b, types=True, defaults=True, docs=True, typ_may_be_inferred=False, none_is_absent=False):
     """a = original entry, b = entry after the round trip; "" when equivalent"""
     if docs and norm_doc(a.get("doc")) != norm_doc(b.get("doc")):
         return "%s: description changed: %r -> %r" % (where, a.get("doc"), b.get("doc"))
@@ -166,13 +166,15 @@ def entry_equiv(where, a, b, types=True, defaults=True, docs=True, typ_may_be_in
         return "%s: a type appeared that is not the original: %r (original %r)" % (where, b.get("typ"), a.get("typ"))
     if defaults:
         if ("default" in a) != ("default" in b):
+            if none_is_absent and same_default(a.get("default"), b.get("default")):
+                return ""  # None/absent default convention (NoneStr / none_types)
             return "%s: default %s" % (where, "lost" if "default" in a else "invented: %r" % (b.get("default"),))
         if "default" in a and not same_default(a["default"], b["default"]):
             return "%s: default changed: %r (%s) -> %r (%s)" % (where, a["default"], type(a["default"]).__name__, b["default"], type(b["default"]).__name__)
     return ""
 
 
-def ir_equiv(a, b, types=True, defaults=True, docs=True, header=True, typ_may_be_inferred=False, returns=True):
+def ir_equiv(a, b, types=True, defaults=True, docs=True, header=True, typ_may_be_inferred=False, returns=True, none_is_absent=False):
     ka, kb = list(a["params"].keys()), list(b["params"].keys())
     if len(ka) != len(kb):
         return "number of parameters changed: %r -> %r" % (ka, kb)
@@ -180,7 +182,7 @@ def ir_equiv(a, b, types=True, defaults=True, docs=True, header=True, typ_may_be
         if x != y:
             return "parameter names/order changed: %r -> %r" % (ka, kb)
     for k in ka:
-        d = entry_equiv("param %s" % k, a["params"][k], b["params"][k], types, defaults, docs, typ_may_be_inferred)
+        d = entry_equiv("param %s" % k, a["params"][k], b["params"][k], types, defaults, docs, typ_may_be_inferred, none_is_absent)
         if d:
             return d
     if returns:
